@@ -51,6 +51,20 @@ func skAddIgnored(s int, v, c float64) skOp {
 		mod:  func(*SketchWorld) {}}
 }
 
+// skAddMany: n unit additions of the same value (macro). A sum kept by plain
+// accumulation drifts by about n/6 ulps; the documented bound is a few ulps.
+// The reference records one entry of weight n (the same multiset).
+func skAddMany(s int, v float64, n int) skOp {
+	return skOp{name: fmt.Sprintf("%s.Add(%s) x %d", slotName(s), fstr(v), n), tag: "add", writes: 1 << uint(s),
+		real: func(_ *SketchWorld, st []*SkSlot, _ bool) {
+			q := st[s].Q()
+			for i := 0; i < n; i++ {
+				must(q.Add(v), "Add of a trackable value refused")
+			}
+		},
+		mod: func(w *SketchWorld) { w.M[s].Add(v, float64(n)) }}
+}
+
 func bigSum(ent []Entry) (sum, abs float64) {
 	var s, a big.Float
 	s.SetPrec(2000)
@@ -658,7 +672,7 @@ func init() {
 					for _, v := range vals {
 						sp.Ops = append(sp.Ops, skAdd(0, v))
 					}
-					sp.Ops = append(sp.Ops, skAddW(0, 1, 0.5), skAddW(0, -7.3, 2), skAddW(0, 1e3, 0.0009765625), skAddW(0, 0.1, 3),
+					sp.Ops = append(sp.Ops, skAddW(0, 1, 0.5), skAddW(0, -7.3, 2), skAddW(0, 1e3, 0.0009765625), skAddW(0, 0.1, 3), skAddMany(0, 7.3, 512),
 						skAddIgnored(0, 50, 0), skAddIgnored(0, math.NaN(), 1), skAddIgnored(0, math.Inf(1), 1), skAddIgnored(0, -math.MaxFloat64, 0.5), skAddIgnored(0, 1, -1),
 						skAdd(1, 2), skAdd(1, -9), skAddW(1, 0.1, 3),
 						skMerge(0, 1), skMerge(1, 0), skCopy(0, 1), skCopy(1, 0), skClear(0), skReweight(0, 0.5), skReweight(0, 2), skReweight(0, 3),
